@@ -913,7 +913,9 @@ EXPORT errno_t _wcsnorm_compose_s_chk(wchar_t *restrict dest, rsize_t dmax,
         return RCNEGATE(ESNULLP);
     }
     if (unlikely(lenp == NULL)) {
-        handle_werror(dest, destbos / sizeof(wchar_t),
+        handle_werror(dest,
+                      destbos == BOS_UNKNOWN ? dmax
+                                             : destbos / sizeof(wchar_t),
                       "wcsnorm_compose_s: lenp is null", ESNULLP);
         return RCNEGATE(ESNULLP);
     }
@@ -936,7 +938,9 @@ EXPORT errno_t _wcsnorm_compose_s_chk(wchar_t *restrict dest, rsize_t dmax,
     }
     if (unlikely(src == NULL)) {
         *lenp = 0;
-        handle_werror(dest, destbos / sizeof(wchar_t),
+        handle_werror(dest,
+                      destbos == BOS_UNKNOWN ? dmax
+                                             : destbos / sizeof(wchar_t),
                       "wcsnorm_compose_s: src is null", ESNULLP);
         return RCNEGATE(ESNULLP);
     }
